@@ -335,6 +335,26 @@ def main() -> int:
         rep.count("host_contract_evaluations", res["evals"])
         for key, msg in res["problems"]:
             rep.violation(msg, {"detail.json": json.dumps({"case": case, "problem": msg})}, key=key)
+    # witnesses of open findings
+    from ..common import VERIF
+    for f in rep.primary_findings:
+        if not f.get("witness"):
+            continue
+        script = (VERIF / f["witness"]).read_text()
+        tr = engine.transpile(script)
+        rep.count("witnesses_run")
+        if tr["status"] != "ok":
+            rep.violation(f"witness of {f['id']} no longer transpiles: {tr.get('exc')}", {"script.py": script}, key="witness:" + f["id"])
+            continue
+        with fw.Scratch() as wd:
+            r = engine.firmware(tr["cpp"], wd, passes=30)
+        later = sum(1 for i, (tt, kind, ff) in enumerate(r["events"]) if kind == "LCD" and ff[1] == "W" and any(e[1] == "PASS" and int(e[2][0]) >= 1 for e in r["events"][:i]))
+        if r["status"] != "ok":
+            rep.violation(f"witness of {f['id']}: firmware {r['status']}", {"script.py": script}, key="witness:" + f["id"])
+        elif later == 0:
+            rep.known(f["id"], f"{f['mechanism'][:130]} [witness {f['witness']}: no LCD write after pass 0 in 30 passes]")
+        else:
+            print(f"note: witness of {f['id']} no longer reproduces (defect gone?)")
     if rep.counters.get("host_contract_evaluations", 0) == 0:
         rep.inconclusive_because("host tick contract never evaluated")
     if rep.counters.get("fw_animation_steps", 0) == 0:
